@@ -52,10 +52,12 @@ def cases(draw):
 
 
 def strategy(tier):
-    return cases()
+    return st.one_of(cases(), cases(), cases(), cases(), cross_language_cases())
 
 
 def evaluate(case):
+    if case.get("kind") == "cross_language":
+        return eval_cross_language(case)
     from textx.exceptions import TextXError
     from textx.scoping import get_included_models
 
@@ -149,4 +151,73 @@ def evaluate(case):
         return out
     finally:
         builtins.open = real_open
+        shutil.rmtree(tmp, ignore_errors=True)
+
+
+# -- an import that crosses a language border -----------------------------------------------------------------------
+@st.composite
+def cross_language_cases(draw):
+    decl_a = draw(st.lists(st.sampled_from(NAMES[:4]), max_size=3, unique=True))
+    decl_b = draw(st.lists(st.sampled_from(NAMES[:4]), max_size=3, unique=True))
+    given = draw(st.lists(st.sampled_from(decl_a + ["project_root"]), max_size=3, unique=True))
+    return {"kind": "cross_language", "decl_a": decl_a, "decl_b": decl_b, "given": given, "chain": draw(st.booleans()),
+            "loader": draw(st.sampled_from(["file", "str_filename"]))}
+
+
+def eval_cross_language(case):
+    """two languages registered by file pattern; a file of language A imports a file of language B (which may import
+    another A file); the parameters are declared by A only / by both.  Every model of the load exposes the given ones."""
+    import textx.registration as r
+    from textx import metamodel_from_str
+    from textx.exceptions import TextXError
+    from textx.scoping import providers as P
+
+    out = Outcome()
+    tmp = os.path.realpath(tempfile.mkdtemp(prefix="vt-c27x-"))
+    try:
+        def factory(decl):
+            def make():
+                mm = metamodel_from_str(F.grammar("", False))
+                for n in decl:
+                    mm.model_param_defs.add(n, "generated parameter")
+                mm.register_scope_providers({"*.*": P.PlainNameImportURI()})
+                return mm
+            return make
+
+        r.clear_language_registrations()
+        r.register_language(r.LanguageDesc("c27a", pattern="*.c27a", description="", metamodel=factory(case["decl_a"])))
+        r.register_language(r.LanguageDesc("c27b", pattern="*.c27b", description="", metamodel=factory(case["decl_b"])))
+        with open(os.path.join(tmp, "main.c27a"), "w") as f:
+            f.write('import "lib.c27b"\ndef ma\nuse u1 -> lb\n')
+        with open(os.path.join(tmp, "lib.c27b"), "w") as f:
+            f.write(('import "deep.c27a"\n' if case["chain"] else "") + "def lb\n" + ("use u2 -> da\n" if case["chain"] else ""))
+        if case["chain"]:
+            with open(os.path.join(tmp, "deep.c27a"), "w") as f:
+                f.write("def da\n")
+        kwargs = {n: f"value-of-{n}" for n in case["given"]}
+        mm = r.metamodel_for_language("c27a")
+        path = os.path.join(tmp, "main.c27a")
+        out.sample = {"kind": "cross_language", "declared_a": case["decl_a"], "declared_b": case["decl_b"], "given": kwargs,
+                      "chain": case["chain"]}
+        out.cls("kind:cross_language", "chain" if case["chain"] else "one_import")
+        out.nontrivial = any(n not in case["decl_b"] and n != "project_root" for n in case["given"])
+        try:
+            if case["loader"] == "file":
+                m = mm.model_from_file(path, **kwargs)
+            else:
+                with open(path) as f:
+                    m = mm.model_from_str(f.read(), file_name=path, **kwargs)
+        except TextXError as e:
+            return out.add("cross_language/load_failed", f"{out.sample}: {e}")
+        models = [m] + [x for x in m._tx_model_repository.all_models if x is not m]
+        for x in models:
+            got = dict(x._tx_model_params) if hasattr(x, "_tx_model_params") else None
+            if got != kwargs:
+                out.add("cross_language/imported_model_params", f"{out.sample}: {os.path.basename(x._tx_filename)} exposes {got}")
+        return out
+    finally:
+        try:
+            r.clear_language_registrations()
+        except Exception:  # noqa: BLE001
+            pass
         shutil.rmtree(tmp, ignore_errors=True)
